@@ -5,8 +5,8 @@ RT model, extra decidable definitions used by the C04 (round trip) theorems.  Im
 model, so the driver can evaluate them on every environment / value the harness sends.
 
 * `envRT`          : extra facts about the field descriptors of an environment that the round trip relies on
-                     (how python_types builds `bb.Attribute(...)` and the validator from one IR type, and
-                     which defaults the front end admits).  NOT derivable inside the model: to be checked on
+                     (how python_types builds `bb.Attribute(...)` and the validator from one IR type, which
+                     defaults the front end admits, and that a subclass inherits its parents' descriptors).  NOT derivable inside the model: to be checked on
                      real data.  The third clause excludes a genuine defect (see `Props/C04.lean`,
                      `nullable_alias_default_witness`).
 * `valWF`          : shape conditions on a *value* at a type: an instance cannot hold two values for one
@@ -40,8 +40,19 @@ def fieldRT (env : Env) (f : FieldDef) : Bool :=
    | none => true
    | some d => !hasDefault env f.ty || (f.ty.flags.nullable && isNoneV d))
 
+/-- name, "may be left unset", omitted-caller of every field -/
+def optSig (fs : List FieldDef) : List (String × Bool × Option String) :=
+  fs.map fun f => (f.name, f.attrNullable || f.dflt.isSome, f.omitted)
+
+/-- a class inherits its ancestors' attribute descriptors: the fields of every registered ancestor are a
+prefix of the class's own, with the same optionality (`envWF` only compares the names). -/
+def chainRT (env : Env) (s : StructDef) : Bool :=
+  s.levels.all fun l => match env.struct? l.cls with
+    | some a => isPrefixOf (optSig a.allAttrs) (optSig s.allAttrs)
+    | none => true
+
 def envRT (env : Env) : Bool :=
-  env.structs.all fun s => s.allAttrs.all (fieldRT env)
+  env.structs.all fun s => s.allAttrs.all (fieldRT env) && chainRT env s
 
 def dictKeys (kvs : List (PyVal × PyVal)) : List String :=
   kvs.filterMap fun kx => match kx.1 with
